@@ -71,6 +71,13 @@ func init() {
 		Quiet()
 		return RunBer(a[1], a[2])
 	}
+	Modes["cgf"] = func(a []string) error {
+		if len(a) != 3 {
+			return fmt.Errorf("cgf <prefix> <cases.json> <out.ndjson>")
+		}
+		Quiet()
+		return RunCgf(a[0], a[1], a[2])
+	}
 	Modes["diamchf"] = func(a []string) error {
 		if len(a) != 3 {
 			return fmt.Errorf("diamchf <prefix> <vectors.json> <out.ndjson>")
